@@ -182,12 +182,13 @@ def check_sampler_precision(chk, quick):
             continue
         bad = []
 
-        def look(name, smp):
+        def look(name, smp, upcast_ok=False):
+            nonlocal w
             for f in ("x", "log_likelihood", "log_prior", "log_q"):
                 v = getattr(smp, f, None)
                 if v is not None and (ns.width_of(v) != w or ns.ns_of(v) != n):
                     bad.append(f"{name}.{f}: {ns.ns_of(v)}/{ns.width_of(v)}")
-                elif v is not None and w == "f64" and f == "x":
+                elif v is not None and w == "f64" and f == "x" and not upcast_ok:
                     a = np.asarray(ns.to_np(v), dtype=np.float64)
                     if a.size and np.all(a.astype(np.float32).astype(np.float64) == a):
                         bad.append(f"{name}.{f}: labelled float64 but every value is float32-representable (rounded through float32)")
@@ -203,6 +204,20 @@ def check_sampler_precision(chk, quick):
                 look("returned after resume", r2["samples"])
                 for t, p in enumerate(r2["sampler"].history.sample_history):
                     look(f"resumed history[{t}]", p)
+        if res.get("ckpts") and s == "minipcn_smc":
+            # the analysis is continued with ANOTHER requested precision (same namespace), from the first and from the final checkpoint:
+            # the restored population and everything built or returned afterwards have the precision requested NOW
+            w_old, w2 = w, ("f32" if w == "f64" else "f64")
+            for which, ck in (("first", res["ckpts"][0]), ("final", res["ckpts"][-1])):
+                r3 = smcrun.resume_smc({**cfg, "width": w2}, ck["bytes"])
+                chk.count("resumed_with_other_precision")
+                if r3["status"] != "done":
+                    bad.append(f"resume from the {which} checkpoint with {w2}: {r3.get('exc')!r}")
+                    continue
+                w = w2
+                # (values saved in float32 and continued in float64 ARE float32-representable where no move was accepted)
+                look(f"returned after resuming the {which} checkpoint with precision {w2}", r3["samples"], upcast_ok=True)
+                w = w_old
         if bad:
             chk.fail("the requested precision is the precision of every population", case, f"requested {n}/{w}: " + "; ".join(bad[:6]),
                      {"clause": "precision", "level": "sampler", "sampler": s, "ns": n, "width": w})
@@ -245,6 +260,44 @@ def check_precision_reaches_backend(chk):
                 chk.fail("a requested precision is the precision of every population", case, f"the proposal was built with dtype {got}", {"clause": "precision", "level": "backend"})
         except Exception as e:   # noqa
             chk.fail("conversion succeeds for every ordered pair", case, repr(e)[:200], {"clause": "raise", "level": "backend", "exc": type(e).__name__})
+
+
+def check_repeated_conversion(chk):
+    """a conversion reflects the object AS IT IS NOW: a population that is converted, then given another field (the way `mutate` and
+    `sample` fill a population in step by step, or a NumPy likelihood converts the set it receives), then converted again"""
+    from aspire.samples import SMCSamples, Samples
+
+    for src in NSS:
+        for K in (SMCSamples, Samples):
+            xp = ns.get_xp(src)
+            dt = ns.native_dtype(src, "f64")
+            case = {"level": "repeated_conversion", "cls": K.__name__, "src": src}
+            chk.count("repeated_conversion")
+            chk.case(case, json.dumps(case))
+            try:
+                kw = {"beta": 0.25} if K is SMCSamples else {}
+                s = K(x=np.arange(8.0).reshape(4, 2) / 3, xp=xp, dtype=dt, parameters=["a", "b"], **kw)
+                problems = []
+                steps = [("log_q", np.arange(4.0) / 7), ("log_prior", np.arange(4.0) / 5 + 1), ("log_likelihood", np.arange(4.0) / 9 - 2)]
+                for method in ("to_numpy", "to_namespace"):
+                    for fname, vals in steps:
+                        before = s.to_numpy() if method == "to_numpy" else s.to_namespace(ns.get_xp("numpy"))
+                        setattr(s, fname, s.array_to_namespace(vals + (0.5 if method == "to_namespace" else 0.0)))
+                        after = s.to_numpy() if method == "to_numpy" else s.to_namespace(ns.get_xp("numpy"))
+                        got = getattr(after, fname)
+                        want = vals + (0.5 if method == "to_namespace" else 0.0)
+                        if got is None or not np.allclose(ns.to_np(got), want, rtol=1e-14, atol=1e-14):
+                            problems.append(f"{method} after assigning {fname}: {None if got is None else ns.to_np(got)[:2].tolist()} instead of {want[:2].tolist()}")
+                if K is SMCSamples:
+                    s.log_evidence = s.array_to_namespace(np.asarray(-3.5))
+                    after = s.to_numpy()
+                    if after.log_evidence is None or abs(float(after.log_evidence) + 3.5) > 1e-12:
+                        problems.append(f"to_numpy after attaching the evidence: {after.log_evidence!r}")
+                if problems:
+                    chk.fail("conversion preserves namespace, values, optional fields and width", case, "; ".join(problems[:4]),
+                             {"clause": "faithful", "level": "repeated_conversion", "problems": ["stale"]})
+            except Exception as e:   # noqa
+                chk.fail("conversion succeeds for every ordered pair", case, repr(e)[:200], {"clause": "raise", "level": "repeated_conversion", "exc": type(e).__name__})
 
 
 def check_proposal_outputs(chk):
@@ -319,6 +372,7 @@ def run(chk: core.Check):
     check_sampler_precision(chk, quick)
     check_output_option(chk)
     check_precision_reaches_backend(chk)
+    check_repeated_conversion(chk)
     check_proposal_outputs(chk)
 
     def search():
